@@ -532,7 +532,7 @@ impl Machine {
 // ------------------------------------------------------------------------------------------
 
 #[derive(Clone, Debug, Serialize, Deserialize)]
-enum CIns {
+pub enum CIns {
     Let { ty: u8, seed: u32 },
     Relet { var: u16, seed: u32 },
     Fn { ret: u8, nparams: u8, seed: u32, wheres: u8, shadow: bool },
@@ -1090,4 +1090,18 @@ fn run(cfg: &Cfg) -> Report {
 fn replay(_sub: &str, case: &J) -> CheckResult {
     let p: Vec<CIns> = serde_json::from_value(case["program"].clone()).map_err(|e| Failure::new("harness", e.to_string()))?;
     check(&p, &mut Stats::default())
+}
+
+// ------------------------------------------------------------------------------------------
+// re-use by other properties (C15): generated programs as source statements
+// ------------------------------------------------------------------------------------------
+
+pub type Program = Vec<CIns>;
+
+pub fn program_strategy(max: usize) -> impl Strategy<Value = Program> {
+    proptest::collection::vec(cins_strategy(), 2..max)
+}
+
+pub fn program_source(program: &[CIns]) -> Vec<String> {
+    build(program).0.iter().map(render_s).collect()
 }
